@@ -20,5 +20,7 @@ if [ $# -gt 0 ]; then
     echo "== check $p with patch: exit $rc"; echo "$out" | grep -E "VIOLATION|^OK|HARNESS|TIMEOUT" | cut -c1-220 | head -5
   done
   git -C /repo checkout -- .
+  # generated files that were rewritten against the patched tree
+  git -C "$root" checkout -- lean/I2N/Extracted evidence 2>/dev/null
 fi
 git -C /repo diff --quiet && echo "/repo restored"
